@@ -471,7 +471,8 @@ type genCtx struct {
 	t       *rapid.T
 	nComps  int
 	marker  *int
-	current int // index of the component whose body is being generated (-1 = root)
+	current int    // index of the component whose body is being generated (-1 = root)
+	leaf    []bool // leaf[j]: component j is markers only
 }
 
 func (g genCtx) mark() string {
@@ -507,12 +508,28 @@ func (g genCtx) items(depth int, inBlock bool) []Item {
 				it.A = rapid.IntRange(lo, g.nComps-1).Draw(g.t, "compA")
 				it.B = rapid.IntRange(lo, g.nComps-1).Draw(g.t, "compB")
 				it.Arity = rapid.SampledFrom([]int{0, 0, 1, 1, 3, -1}).Draw(g.t, "arity")
+				// the shape that matters most for a layer: a component that never touches the
+				// children first, one with a slot after it
+				var leaves, others []int
+				for j := lo; j < g.nComps; j++ {
+					if j < len(g.leaf) && g.leaf[j] {
+						leaves = append(leaves, j)
+					} else {
+						others = append(others, j)
+					}
+				}
+				if len(leaves) > 0 && len(others) > 0 && rapid.IntRange(0, 2).Draw(g.t, "leafFirst") > 0 {
+					it.A = rapid.SampledFrom(leaves).Draw(g.t, "leafA")
+					it.B = rapid.SampledFrom(others).Draw(g.t, "slotB")
+					it.Arity = 0
+				}
 			case "once", "oncefixed":
 				it.A = rapid.IntRange(0, 2).Draw(g.t, "handle")
 			case "raw", "fn":
 				it.Text = g.mark()
 			}
-			if rapid.IntRange(0, 2).Draw(g.t, "block") > 0 {
+			// layers that render several components are the interesting callees for a block
+			if rapid.IntRange(0, 2).Draw(g.t, "block") > 0 || ((it.Callee == "fnseq" || it.Callee == "join") && rapid.IntRange(0, 3).Draw(g.t, "layerBlock") > 0) {
 				it.HasBlk = true
 				it.Block = g.items(depth+1, true)
 				if len(it.Block) == 0 {
@@ -529,16 +546,24 @@ var genTree = rapid.Custom(func(t *rapid.T) Tree {
 	n := rapid.IntRange(0, 5).Draw(t, "ncomps")
 	marker := 0
 	var tr Tree
+	leaf := make([]bool, n)
+	for i := range leaf {
+		leaf[i] = rapid.IntRange(0, 4).Draw(t, "leaf") == 0
+	}
 	for i := 0; i < n; i++ {
-		g := genCtx{t: t, nComps: n, marker: &marker, current: i}
+		g := genCtx{t: t, nComps: n, marker: &marker, current: i, leaf: leaf}
 		body := g.items(1, false)
-		if rapid.IntRange(0, 3).Draw(t, "ensureSlot") > 0 {
+		if leaf[i] {
+			// a leaf: markers only - no slot, no call, nothing that touches the children
+			marker++
+			body = []Item{{Kind: "text", Text: fmt.Sprintf("leaf%d", marker)}}
+		} else if rapid.IntRange(0, 3).Draw(t, "ensureSlot") > 0 {
 			pos := rapid.IntRange(0, len(body)).Draw(t, "slotpos")
 			body = append(body[:pos:pos], append([]Item{{Kind: "slot"}}, body[pos:]...)...)
 		}
 		tr.Comps = append(tr.Comps, body)
 	}
-	g := genCtx{t: t, nComps: n, marker: &marker, current: -1}
+	g := genCtx{t: t, nComps: n, marker: &marker, current: -1, leaf: leaf}
 	tr.Root = g.items(0, false)
 	return tr
 })
